@@ -133,7 +133,7 @@ def number_bounds(check: Check, repo: Repo) -> None:
 
 def run(tier: str) -> Check:
     check = Check("C11", tier, EXPLANATION)
-    check.rules = ["ESCAPE", "ESCAPE-RENDER", "ARITY", "TRIAGE-PREMISE", "TOKEN-START", "LINE-OFFSET", "GRAPH-RECURSION", "NUM-BOUND", "DECODE-TOTAL"]
+    check.rules = ["ESCAPE", "ESCAPE-RENDER", "ARITY", "TRIAGE-PREMISE", "TOKEN-START", "LINE-OFFSET", "GRAPH-RECURSION", "NUM-BOUND", "DECODE-TOTAL", "CONTEXT"]
     repo = Repo()
     esc = escape_engine(repo)
     check.assumptions = [
@@ -164,6 +164,19 @@ def run(tier: str) -> Check:
     from ..lineoff import apply as line_offsets
 
     line_offsets(check, repo, "LINE-OFFSET", ["src/pest/grammar/exceptions.py"], 1)
+    # "points at a line and column that exist in the text": decided on the order-and-adjacency abstraction (sa/linesem.py)
+    from ..linesem import check_grammar_error_context
+
+    n_c, bad_c = check_grammar_error_context(repo, "src/pest/grammar/exceptions.py::PestGrammarError._error_context", tier == "thorough")
+    check.count("context_model_points", n_c)
+    ccon = "src/pest/grammar/exceptions.py::PestGrammarError._error_context"
+    check.oblige("CONTEXT", ccon, f"the reported line and column are those of the token start on all {n_c} model (text, offset) points", True, sample=True)
+    cats_c: dict[str, list[str]] = {}
+    for cat, msg in bad_c:
+        cats_c.setdefault(cat, []).append(msg)
+    for cat, msgs in sorted(cats_c.items()):
+        check.oblige("CONTEXT", ccon, cat, False, sample=True, finding=Finding("CONTEXT", ccon, cat, f"_error_context: {cat}: e.g. {msgs[0]} ({len(msgs)} of {n_c} model points)", {"witness": msgs[0]}))
+    check.floor("context_model_points", 500)
     check.floor("reachable_functions", 100)
     check.floor("may_raise_sites", 30)
     check.floor("with_children_arity", 20)
